@@ -222,8 +222,20 @@ func Run(j *job.Job, s *job.Sink) {
 			n := 2 + r.Intn(3)
 			withSub := r.Intn(2) == 0
 			var idops []op
+			var lateSub *op
 			if withSub {
-				idops = append(idops, op{"load", "zzid0s.yang", "submodule zzid0s {\n  belongs-to zzid0 { prefix i0; }\n  identity SUBMID { base MID; }\n  identity SUBLOW { base SUBMID; }\n  identity SUBTOP { base i0:TOP; }\n  leaf subref { type identityref { base MID; } }\n}\n"})
+				sub := "submodule zzid0s {\n  belongs-to zzid0 { prefix i0; }\n  identity SUBMID { base MID; }\n  identity SUBLOW { base SUBMID; }\n  identity SUBTOP { base i0:TOP; }\n  leaf subref { type identityref { base MID; } }\n}\n"
+				if r.Intn(3) == 0 {
+					// the submodule comes in two revisions, the newer one late: it no longer has
+					// one of the identities (and has a new one), and the older revision, which
+					// nothing includes any more, must not contribute to any list from then on
+					old := strings.Replace(sub, "  identity SUBMID", "  revision 2019-01-01;\n  identity SUBOLD { base MID; }\n  identity SUBOLDER { base SUBOLD; }\n  identity SUBMID", 1)
+					newer := strings.Replace(sub, "  identity SUBMID", "  revision 2020-01-01;\n  identity SUBNEW { base MID; }\n  identity SUBMID", 1)
+					sub = old
+					lateSub = &op{"load", "zzid0s@2020-01-01.yang", newer}
+					s.Count("histories_with_a_late_submodule_revision", 1)
+				}
+				idops = append(idops, op{"load", "zzid0s.yang", sub})
 			}
 			for k := 0; k < n; k++ {
 				var b strings.Builder
@@ -259,6 +271,9 @@ func Run(j *job.Job, s *job.Sink) {
 				if r.Intn(2) == 0 {
 					ops = append(ops, op{Kind: "process"})
 				}
+			}
+			if lateSub != nil {
+				ops = append(ops, op{Kind: "process"}, *lateSub, op{Kind: "process"})
 			}
 			s.Count("histories_with_identity_modules", 1)
 		}
